@@ -319,3 +319,92 @@ def encoder_model_tie(chk, cases):
                                "file_hex": c["bytes"], "pcm": c.get("expect", c.get("frames")), "cfg": c["cfg"], "model": r}, no_input=True)
     out["encoder_model_mismatching_files"] = bad
     return out
+
+_e2e_driver = {}
+
+
+def build_e2e_driver(chk):
+    """Build (once per process) the OCaml driver of the COMPOSED model (coq/e2e/Extract.v)."""
+    if "exe" in _e2e_driver:
+        return _e2e_driver["exe"]
+    for d in (BASE, CODEC, WRITERS, READERS, E2E):
+        ok, out = vlib.coq_make(d)
+        if not ok:
+            chk.broken_tie("coq-build:composed-model", out)
+            _e2e_driver["exe"] = None
+            return None
+    mdir = os.path.join(CACHE, "ocaml", "e2e")
+    os.makedirs(mdir, exist_ok=True)
+    for f in ("e2e_model.ml", "e2e_model.mli"):
+        shutil.copy(os.path.join(E2E, f), mdir)
+    shutil.copy(os.path.join(VERIF, "ocaml", "e2e_driver.ml"), mdir)
+    okb, exe, bout = vlib.ocaml_build(mdir, ["e2e_model.mli", "e2e_model.ml", "e2e_driver.ml"], "e2e_driver")
+    if not okb:
+        chk.broken_tie("ocaml-build:composed-model", bout)
+        exe = None
+    _e2e_driver["exe"] = exe
+    return exe
+
+
+def composed_model_tie(chk, cases):
+    """Whole-file correspondence of the COMPOSED model (coq/e2e: the writers area's FlacSampleWriter front-end and
+    Encoder — constructor, metadata region, bookkeeping, finalize with its seek-table and padding cases — with the codec
+    area's block encoder plugged in, MD5 = OCaml Digest, LPC analysis = oracle read from the file): for every file the
+    real encoder produced, the model run on the same options and PCM must produce THE SAME FILE, byte for byte.  For
+    exhaustive stereo with LPC the oracle is incomplete (unchosen candidates are unknown) and a difference is only
+    counted.  A difference otherwise is a broken tie: the theorems of coq/e2e are about a model the code no longer follows."""
+    sel = [c for c in cases if c.get("kind") == "enc_stream" and isinstance(c.get("cfg"), dict)]
+    out = {"composed_model_files": 0, "composed_model_files_byte_exact": 0, "composed_model_files_incomplete_oracle": 0,
+           "composed_model_incomplete_oracle_differences": 0, "composed_model_mismatching_files": 0, "composed_model_layouts": {}}
+    if not sel:
+        return out
+    exe = build_e2e_driver(chk)
+    if exe is None:
+        return out
+    import concurrent.futures
+    n = min(vlib.NCPU, max(1, len(sel) // 8))
+    chunks = [sel[i::n] for i in range(n)]
+
+    def work(chunk):
+        data = "\n".join(json.dumps(dict(c, kind="enc_stream")) for c in chunk) + "\n"
+        rc, o = vlib.sh("ulimit -s unlimited 2>/dev/null; %s" % exe, timeout=1800, stdin=data)
+        lines = [l for l in o.splitlines() if l.startswith("{")]
+        return [json.loads(l) for l in lines] if len(lines) == len(chunk) else None
+
+    with concurrent.futures.ThreadPoolExecutor(max_workers=n) as ex:
+        parts = list(ex.map(work, chunks))
+    if any(p is None for p in parts):
+        chk.broken_tie("composed-model-run", "the composed-model driver did not answer every case")
+        return out
+    res = [None] * len(sel)
+    for i, p in enumerate(parts):
+        for j, r in enumerate(p):
+            res[i + j * n] = r
+    bad = 0
+    for c, r in zip(sel, res):
+        out["composed_model_files"] += 1
+        cfg = c["cfg"]
+        lay = "seek=%s padding=%s total=%s" % (str(cfg.get("seek"))[:7], "default" if cfg.get("padding") is None else ("none" if cfg.get("padding") == 0 else "n"), "declared" if cfg.get("declare_total") else "unknown")
+        out["composed_model_layouts"][lay] = out["composed_model_layouts"].get(lay, 0) + 1
+        why = None
+        if r.get("end") != "ok":
+            why = "the model run ends with %s where the implementation produced a file" % r.get("end")
+        elif r["match"]:
+            out["composed_model_files_byte_exact"] += 1
+            if not r["complete_oracle"]:
+                out["composed_model_files_incomplete_oracle"] += 1
+        elif not r["complete_oracle"]:
+            out["composed_model_files_incomplete_oracle"] += 1
+            out["composed_model_incomplete_oracle_differences"] += 1
+        else:
+            why = "first difference at byte %d of %d (metadata region: %d bytes): model %s... / implementation %s..." % (
+                r["first_diff"], r["file_len"], r["meta_len"], r["model_at"], r["file_at"])
+        if why:
+            bad += 1
+            if bad <= 3:
+                chk.violation("tie:composed-model-file",
+                              "the file the encoder writes is no longer the file the composed Coq model (coq/e2e: FlacSampleWriter model x Encoder model x block encoder model) writes: %s" % why,
+                              {"stage": "composed-model-correspondence", "theorem": "C01_sample_writer_lossless / C02_sample_writer_file_valid / C09_sample_writer_seekpoints (coq/e2e/Props_E2E.v)",
+                               "file_hex": c["bytes"], "pcm": c.get("expect"), "cfg": cfg, "model": r}, no_input=True)
+    out["composed_model_mismatching_files"] = bad
+    return out
